@@ -284,7 +284,8 @@ func indexOutsideQuotes(s string, ch byte) int {
 	return -1
 }
 
-// splitObjectItems splits comma-separated items in an object, respecting quoted strings.
+// splitObjectItems splits comma-separated items in an object, respecting quoted strings
+// and the commas inside nested braces, call arguments and index brackets.
 func (v *Vue) splitObjectItems(content string) []string {
 	var items []string
 	var current strings.Builder
@@ -301,10 +302,10 @@ func (v *Vue) splitObjectItems(content string) []string {
 		case ch == quoteChar && inQuotes:
 			inQuotes = false
 			current.WriteRune(ch)
-		case ch == '{' && !inQuotes:
+		case (ch == '{' || ch == '(' || ch == '[') && !inQuotes:
 			inBrackets++
 			current.WriteRune(ch)
-		case ch == '}' && !inQuotes:
+		case (ch == '}' || ch == ')' || ch == ']') && !inQuotes:
 			inBrackets--
 			current.WriteRune(ch)
 		case ch == ',' && !inQuotes && inBrackets == 0:
